@@ -174,4 +174,17 @@ prop("C15",
            dict(name="h_memtrack4", sources=["harness/h_memtrack.c"], profile="asan_dbg4", exclude=["mem.c"], wraps=_MW, args={"quick": ["--pool=2"], "thorough": ["--pool=3"]}),
            dict(name="h_own_track", sources=["harness/h_own.c"], profile="asan_dbg5", exclude=["mem.c"], cflags=["-DVERIF_TRACKCHECK"], args={"quick": ["--depth=2"], "thorough": ["--depth=3"]})],
      deadline={"quick": 240, "thorough": 3000})
+
+
+prop("C08",
+     level="exploration",
+     technique="bounded exhaustive enumeration (E2) of command lines built from semantic items x spellings x parser settings against an item-level (non-parsing) oracle, and of hostile token vectors under ASan with a diagnostic-count horizon",
+     rule="part A: every sequence of <= K items over the spelling alphabet x {pre-parse} x {remove-args} x {arglist/abstract options in the normal or the pre-parse pass}; the parser is called as a client would "
+          "(pre-parse pass, then normal pass) and every target variable, guard word, handler call and the final argv are compared with the assignment computed from the items; "
+          "part B: every vector of <= N hostile tokens x 4 settings: terminates (<= 1000 diagnostics), ASan clean, foreign bits and guard words untouched, argv a NULL-terminated sub-sequence; "
+          "non-trivial = valid item sequences, and hostile vectors that raise the bad-option count",
+     bounds={"quick": "K=2 items (42 spellings), N=3 tokens (22 tokens)", "thorough": "K=3, N=4"},
+     runs=[dict(name="h_opt", sources=["harness/h_opt.c"], profile="asan", wraps=["libast_print_error", "libast_print_warning"],
+                args={"quick": ["--K=2", "--N=3"], "thorough": ["--K=3", "--N=4"]})],
+     deadline={"quick": 240, "thorough": 3000})
 NOT_CLAIMED = {}
